@@ -9,7 +9,7 @@ import ast
 
 from ..program import AnalysisError, walk_local, dotted
 from ..analysis import Spec, src, const_value
-from ..rules import (canon, inside, before, GWF, EXC, mpt, need_func, need_call, stores_to,
+from ..rules import (first_rest, canon, inside, before, GWF, EXC, mpt, need_func, need_call, stores_to,
                      parent_map, outcomes, explicit_exits, strip_wrappers,
                      chained_assign_value, raise_class)
 from . import common
@@ -110,12 +110,7 @@ def tips_refreshed(prog, an, rep):
     if ok:
         lp = loops[0]
         lv = [t.id for t in ast.walk(lp.target) if isinstance(t, ast.Name)]
-        rest = {st.targets[0].elts[1].value.id
-                for st in walk_local(f.node, include_root=False)
-                if isinstance(st, ast.Assign) and
-                isinstance(st.targets[0], ast.Tuple) and
-                len(st.targets[0].elts) == 2 and
-                isinstance(st.targets[0].elts[1], ast.Starred)}
+        rest = {r for _, r, _ in first_rest(f) if r is not None}
         ok = any(r in src(lp.iter) for r in rest)
         if u is not f:
             a0 = [src(a) for a in calls[0].args]
